@@ -239,7 +239,7 @@ func (c07) Run(e *Env) {
 		}
 		series = append(series, s)
 	}
-	nBatches := e.Range(1, 8)
+	nBatches := e.Range(1, 8*e.Depth())
 	batches := make([][]c07DP, nBatches)
 	ts := int64(1000)
 	id := 0
